@@ -47,6 +47,18 @@ func runC08(c *Check) {
 	c.totalityRules(parsed)
 	c.mapRules()
 	c.graphConsumers()
+	c.fetchOrder()
+}
+
+// fetchOrder (R4): concurrently fetched profiles are combined in command-line order (the
+// collection rule of C16, which C08 depends on for schedule independence).
+func (c *Check) fetchOrder() {
+	before := len(c.Obls)
+	c.collectRules()
+	for _, o := range c.Obls[before:] {
+		o.Rule = strings.Replace(o.Rule, "C16-R4", "C08-R4", 1)
+		o.Rule = strings.Replace(o.Rule, "C16-R5", "C08-R4", 1)
+	}
 }
 
 func (c *Check) mapRules() {
